@@ -98,6 +98,16 @@ CLAIMED = {
        "cells, parameters; unions and any) compared with Spec, plus a recursive content-in-declared-type walk over the result.",
   note=SPEC_NOTE + " The typed-content invariant for all checker-admitted assignments is checked by the harness walk and the monitor, not yet proved.",
   technique="Lean 4 proof over a reference semantics + differential assignment histories", ref="DESIGN.md §6 C13"),
+ "C19": dict(
+  text="Lean 4 theorems about Spec.veq (total model of PartialEq for Variable) and F64.feq (IEEE equality defined on bit patterns): "
+       "values of different kinds are unequal; bool/int/string/() by value; floats by IEEE equality (symmetric, reflexive "
+       "except NaN, NaN unequal to everything, +0 == -0); arrays and tuples element-wise, independent of the stored element "
+       "type (whatever the provenance); structs as maps; functions and cells by identity; != is the negation of ==; == is "
+       "reflexive on values without NaN (induction on value size) and symmetric on struct-free values (struct symmetry needs a "
+       "counting argument, not yet proved: `_partial`). Tied to the implementation by value pairs built along 12 provenance "
+       "paths and viewed through exact / any static types, ==, != and match value arms, compared with Spec and with content "
+       "equality computed in Python.",
+  note=SPEC_NOTE, technique="Lean 4 proof over a total model of value equality + differential provenance pairs + content-equality oracle", ref="DESIGN.md §6 C19"),
 }
 NOT_YET = "machinery for this property is not built yet in this round (planned, see DESIGN.md §6)"
 
